@@ -9,6 +9,8 @@ import (
 	"sort"
 	"strings"
 	"sync"
+	"sync/atomic"
+	"syscall"
 	"time"
 
 	"github.com/anishathalye/porcupine"
@@ -163,6 +165,7 @@ func c09Scenario(c *fw.Ctx, sp c09Spec) schedScenario {
 			finished := make([]bool, len(sp.Threads))
 			probeProb = ""
 			clock := 0
+			var fsArmed atomic.Bool
 			doOp := func(client int, op c09Op) {
 				st := sh.Store
 				in := c09In{Kind: op.Kind, MB: op.MB}
@@ -201,6 +204,12 @@ func c09Scenario(c *fw.Ctx, sp c09Spec) schedScenario {
 					out = c09Out{Err: st.MarkSeen(op.MB, in.ID) != nil}
 				case "purge":
 					out = c09Out{Err: st.PurgeMessages(op.MB) != nil}
+				case "purge!":
+					// a purge during which the next opening of an index file fails (one departure
+					// from the environment's default answer); NoLin scenarios only
+					fsArmed.Store(true)
+					out = c09Out{Err: st.PurgeMessages(op.MB) != nil}
+					fsArmed.Store(false)
 				case "list":
 					ms, err := st.GetMessages(op.MB)
 					out = c09Out{IDs: idsOf(ms), Err: err != nil}
@@ -238,6 +247,13 @@ func c09Scenario(c *fw.Ctx, sp c09Spec) schedScenario {
 			}
 			e = vsched.Run(cfg, func() (func(), []vsched.Thread, func()) {
 				sh = sys.NewStore(sp.Store, nil)
+				fsArmed.Store(false)
+				vsched.FSFault = func(op, path string) error {
+					if op == "open" && strings.HasSuffix(path, "index.gob") && fsArmed.CompareAndSwap(true, false) {
+						return syscall.EIO
+					}
+					return nil
+				}
 				init := func() {
 					for i, op := range sp.Init {
 						clock++
